@@ -253,7 +253,7 @@ fn golden(rep: &Report) {
     rep.extra("golden_files", json!(n));
 }
 
-pub fn run(rep: &Report) {
+pub fn run(rep: &'static Report) {
     let seed = rep.seed;
     rep.set_rule("E-GRID vs REF: every point of the stated products (lengths x read partitions x key sets; every composition of L<=8 into chunk sizes; counter sweep; golden files) is executed once on the real code and compared byte for byte with the executable specification; distinct non-trivial = distinct (mode, direction, keys, length, partition/chunking) points with at least one chunk record compared");
     rep.rule_add("CLI password-file conformance in both directions x {fresh, pre-existing longer output}.");
@@ -457,9 +457,112 @@ pub fn run(rep: &Report) {
         }
     }
     cli_conformance(rep);
+    cli_odd_chunkings(rep);
+    call_order_conformance(rep);
     // (iv) golden files
     golden(rep);
     rep.set_exhaustive(true);
+}
+
+/// "Every conforming file, however it is split into chunks, decrypts to its plaintext" through the CLI: REF-written files
+/// with short non-final chunks, chunks of 1 byte, and an empty final chunk, given as FILE and on stdin, to -o and to stdout.
+fn cli_odd_chunkings(rep: &Report) {
+    use crate::fx::Party;
+    use crate::proc::{self, Cmd, Scratch};
+    use rayon::prelude::*;
+    let seed = rep.seed;
+    let alice = Party::new(seed, "alice", "alicepw");
+    let bob = Party::new(seed, "bob", "bobpw");
+    let kr = crate::fx::keyring(&[(&alice, false), (&bob, true)]);
+    let salt = derive32(seed, "c06-odd-salt");
+    let pkey = r::pass_key(b"oddpw", &salt);
+    let chunkings: Vec<(&str, Vec<usize>)> = vec![("five-chunks-of-1000", vec![1000; 5]), ("descending", vec![3000, 2000, 1000, 1]), ("twenty-1-byte-chunks", vec![1; 20]), ("full-then-1", vec![CS, 1]), ("short-then-full", vec![10, CS])];
+    let mut jobs = vec![];
+    for (cn, ch) in &chunkings {
+        for mode in ["key", "pass"] {
+            for wiring in 0..3u8 {
+                jobs.push((*cn, ch.clone(), mode, wiring));
+            }
+        }
+    }
+    jobs.par_iter().for_each(|(cn, ch, mode, wiring)| {
+        rep.eval(1);
+        rep.nontrivial(format!("cli-odd-{}-{}-{}", cn, mode, wiring).as_bytes());
+        let total: usize = ch.iter().sum();
+        let p = plaintext(seed ^ 0x6c, total);
+        let file = if *mode == "key" { r::write_key_file(&alice.sk, &bob.pk, &derive32(seed, "c06-odd-e"), &derive32(seed, "c06-odd-p"), &p, ch).unwrap() } else { r::write_pass_file_with_key(&pkey, &salt, &p, ch) };
+        let attempt = || -> Result<(), String> {
+            let sc = Scratch::new();
+            sc.write("kr.txt", kr.as_bytes());
+            sc.write("in.ktl", &file);
+            // wiring 0: FILE -> -o ; 1: FILE -> stdout ; 2: stdin -> -o
+            let mut a: Vec<&str> = if *mode == "key" { vec!["decrypt", "-t", "bob", "-k", "kr.txt", "--env-pass"] } else { vec!["password", "decrypt", "--env-pass"] };
+            if *wiring != 2 {
+                a.push("in.ktl");
+            }
+            if *wiring != 1 {
+                a.extend_from_slice(&["-o", "out.bin"]);
+            }
+            let mut c = Cmd::new(&a).env("KESTREL_PASSWORD", if *mode == "key" { "bobpw" } else { "oddpw" });
+            if *wiring == 2 {
+                c = c.stdin(&file);
+            }
+            let o = proc::run(&c, &sc.0);
+            o.well_behaved()?;
+            let got = if *wiring == 1 { o.stdout.clone() } else { sc.read("out.bin").unwrap_or_default() };
+            if !o.ok() || got != p {
+                return Err(format!("a conforming {}-mode file of {} bytes in chunks {:?} ({}) is not decrypted to its plaintext: exit {:?}, {} bytes out", mode, total, if ch.len() > 6 { &ch[..6] } else { &ch[..] }, ["FILE to -o", "FILE to stdout", "stdin to -o"][*wiring as usize], o.code, got.len()));
+            }
+            Ok(())
+        };
+        if attempt().is_err() {
+            if let Err(e) = attempt() {
+                rep.violation("cli/odd-chunking", json!({"kind":"cli-conf","chunking":cn,"mode":mode,"wiring":wiring}), e);
+            }
+        }
+    });
+    rep.extra("cli_odd_chunking_runs", json!(jobs.len()));
+}
+
+/// Byte-for-byte conformance must not depend on what the same thread did before: every ordered pair of
+/// {key encrypt, password encrypt, key decrypt, password decrypt} on a fresh thread, each step checked against REF.
+fn call_order_conformance(rep: &'static Report) {
+    let seed = rep.seed;
+    let ids = idents(seed);
+    let (s, rc) = (ids[0].clone(), ids[2].clone());
+    let e = derive32(seed, "c06-seq-e");
+    let pk = derive32(seed, "c06-seq-pk");
+    let pw = b"c06 order".to_vec();
+    let salt = derive32(seed, "c06-seq-salt");
+    let key = r::pass_key(&pw, &salt);
+    let mut hs = vec![];
+    for a in 0..4u8 {
+        for b in 0..4u8 {
+            let (s, rc, pw) = (s.clone(), rc.clone(), pw.clone());
+            hs.push(std::thread::spawn(move || {
+                for (step, op) in [a, b].into_iter().enumerate() {
+                    let l = if step == 0 { 70usize } else { 9 };
+                    let p = plaintext(seed ^ 0x6b ^ step as u64, l);
+                    match op {
+                        0 => enc_key_case(rep, &s, &rc, &e, &pk, &p, &[]),
+                        1 => enc_pass_case(rep, &pw, &salt, &key, &p, &[]),
+                        2 => dec_key_case(rep, &s, &rc, &e, &pk, &p, &[l]),
+                        _ => {
+                            let f = r::write_pass_file_with_key(&key, &salt, &p, &[l]);
+                            dec_stream_case(rep, "dec-pass", &Subject::PassDec { pw: hx(&pw) }, &f, &p, json!({"kind":"call-order","a":a,"b":b}), "password file after another call on the same thread");
+                        }
+                    }
+                }
+            }));
+        }
+    }
+    for h in hs {
+        if h.join().is_err() {
+            rep.violation("call-order/panic", json!({"kind":"call-order"}), "worker thread panicked".into());
+        }
+    }
+    rep.nontrivial(b"call-order-pairs");
+    rep.extra("call_order_pairs_on_fresh_threads", json!(16));
 }
 
 /// CLI level: password files written by the specification decrypt with the CLI under exactly those password bytes, and
@@ -515,8 +618,8 @@ fn cli_conformance(rep: &Report) {
     });
 }
 
-pub fn replay(rep: &Report, case: &Value) {
-    if case["kind"] == "cli-conf" || case["kind"] == "topbit" {
+pub fn replay(rep: &'static Report, case: &Value) {
+    if case["kind"] == "cli-conf" || case["kind"] == "topbit" || case["kind"] == "call-order" {
         println!("  re-running C06");
         run(rep);
         return;
